@@ -34,6 +34,15 @@ var RepoDir = func() string {
 	return "/repo"
 }()
 
+// harnessDir is /verif/harness; a development run against a scratch tree (VERIF_REPO) may also name a
+// scratch harness directory with VERIF_HARNESS.
+func harnessDir() string {
+	if d := os.Getenv("VERIF_HARNESS"); d != "" && os.Getenv("VERIF_REPO") != "" {
+		return d
+	}
+	return filepath.Join(VerifDir, "harness")
+}
+
 // HarnessFile is one overlay source with its directives.
 type HarnessFile struct {
 	Path    string
@@ -183,7 +192,7 @@ func tierN(t string) int {
 }
 
 func prelude(pkgName string) []byte {
-	src, err := os.ReadFile(filepath.Join(VerifDir, "harness", "rt.go.tmpl"))
+	src, err := os.ReadFile(filepath.Join(harnessDir(), "rt.go.tmpl"))
 	if err != nil {
 		panic(err)
 	}
@@ -191,7 +200,7 @@ func prelude(pkgName string) []byte {
 }
 
 func harnessFiles(prop string) ([]string, error) {
-	pat := filepath.Join(VerifDir, "harness", strings.ToLower(prop)+"_*.go")
+	pat := filepath.Join(harnessDir(), strings.ToLower(prop)+"_*.go")
 	m, err := filepath.Glob(pat)
 	sort.Strings(m)
 	return m, err
